@@ -308,4 +308,24 @@ example : let o : Ord := ⟨1, 1, true, false, 0, .open_, 1000, 0, .active, 0, 0
     (fillAll o [(10, 300, 5)]).status = .active := by
   decide +kernel
 
+
+/-! ### signal mode (`SignalBroker`) -/
+
+/-- signal mode decides every order at once: it never rests and is never cancelled — rejected, filled in full, or the slippage model raises -/
+theorem signal_decides_at_once (pl : Bool) (slip : Slip) (o : Ord) (b : MBar) (ct : Int → Int) :
+    signalMatch pl slip o b ct = .rejected ∨ signalMatch pl slip o b ct = .raises ∨
+    ∃ p, signalMatch pl slip o b ct = .fill o.qty p (ct o.qty) false := by
+  unfold signalMatch
+  cases validPrice b.deal with
+  | none => exact Or.inl rfl
+  | some last =>
+    simp only
+    cases hc : (pl && signalAtLimit o b (signalDeal o last)) with
+    | true => simp
+    | false =>
+      simp only [Bool.false_eq_true, if_false]
+      cases hs : slipPrice slip o.isBuy o.isLimit o.limitPrice b (signalDeal o last) with
+      | none => exact Or.inr (Or.inl rfl)
+      | some price => exact Or.inr (Or.inr ⟨price, rfl⟩)
+
 end RQ.Props.C04
